@@ -363,6 +363,23 @@ def _fam_exp_wall(rng, n, spec):
     return f, g, dict(convex=False, complex_safe=True, wild=True)
 
 
+def _fam_log_barrier(rng, n, spec):
+    """c.x - sum(log x): defined for x > 0 only; returns inf (gradient nan) outside its domain, as a user's
+    domain-restricted objective does. Not in ALL_FAMILIES: only the checks that handle non-finite values use it."""
+    c = rng.uniform(0.2, 5.0, n)
+
+    def f(x):
+        if np.any(x <= 0):
+            return float("inf")
+        return float(c @ x - np.sum(np.log(x)))
+
+    def g(x):
+        with np.errstate(divide="ignore", invalid="ignore"):
+            return np.where(x > 0, c - 1.0 / x, np.nan)
+
+    return f, g, dict(convex=True, wild=True, domain_positive=True)
+
+
 def _fam_badly_scaled(rng, n, spec):
     A = rand_spd(rng, n, float(spec.get("cond", 30.0)))
     b = rng.standard_normal(n)
@@ -428,6 +445,7 @@ _FAMILIES = {
     "ackley": _fam_ackley,
     "oscillating": _fam_oscillating,
     "exp_wall": _fam_exp_wall,
+    "log_barrier": _fam_log_barrier,
     "badly_scaled": _fam_badly_scaled,
     "quartic": _fam_quartic,
     "sphere": _fam_sphere,
@@ -489,6 +507,8 @@ def make_problem(spec) -> Problem:
         other = make_problem(spec["geometry_from"])
         if other.n == n:
             lb, ub, x0 = other.lb.copy(), other.ub.copy(), other.x0.copy()
+    if meta.get("domain_positive"):
+        x0 = np.clip(np.abs(x0) + 0.3, lb, ub)  # start inside the objective's domain whenever the box allows it
     return Problem(dict(spec), n, f, g, lb, ub, x0, meta)
 
 
